@@ -101,6 +101,12 @@ func parseSignature(sig []byte) ([]byte, []byte, error) {
 	if len(sBytes) == 0 || sBytes[0] != 4 {
 		return nil, nil, errors.New("sm9: invalid point format")
 	}
+	// h is an OCTET STRING of the byte length of the group order: a shorter
+	// one (leading zero bytes stripped) would be a second encoding of the
+	// same signature
+	if len(hBytes) != 32 {
+		return nil, nil, errors.New("sm9: invalid h length")
+	}
 	return hBytes, sBytes, nil
 }
 
